@@ -120,6 +120,9 @@ def c16(quick):
         S.append((D(mode=mode, nj=2, pre=4, bs=1, inline=True, calls=[dict(n=6, cons="free")]), "random", rnd))
         S.append((D(mode=mode, nj=2, pre=2, bs=1, calls=[dict(n=4)]), "dfs", lim))
         S.append((D(mode=mode, nj=2, pre=2, bs=1, managed="per_call", calls=[dict(n=4, cons="leave"), dict(n=3, cons="leave"), dict(n=2)]), "dfs", lim))
+        # warnings are errors (python -W error): the "exit early" warning raised while closing must not skip the abort
+        S.append((D(mode=mode, nj=2, pre=2, bs=1, warn_error=True, calls=[dict(n=6, cons="close"), dict(n=3)]), "random", rnd))
+        S.append((D(mode=mode, nj=2, pre=3, bs=1, warn_error=True, managed=True, calls=[dict(n=6, cons="close"), dict(n=3)]), "random", rnd))
         # completions delivered inside submit (a backend whose futures are already done when the callback is attached):
         # the first callback may exhaust the input before the caller's dispatch loop has finished its first step
         for pre in (1, 2):
